@@ -26,7 +26,7 @@ func runC13(r *Run) {
 	P := r.P
 	const ck = "x/coinomics/keeper"
 	modName, _ := P.constOf(haqqMod+"/x/coinomics/types", "ModuleName")
-	r.Rule("R1", "OWN: bank MintCoins(…, coinomics, …) only in (coinomics Keeper).MintCoins ← MintAndAllocate ← EndBlocker")
+	r.Rule("R1", "OWN: bank MintCoins(…, coinomics, …) only in (coinomics Keeper).MintCoins ← MintAndAllocate ← EndBlocker; SetPrevBlockTS ← {MintAndAllocate, EndBlocker}")
 	r.Rule("R2", "PATH+FLOW: see explanation")
 
 	checkMintBurnOwnership(r, "R1", modName, map[string]string{"(" + ck + ".Keeper).MintCoins": "coinomics mint helper"}, 1)
@@ -47,6 +47,26 @@ func runC13(r *Run) {
 		})
 	}
 	r.Floor("R1", "callers of MintCoins/MintAndAllocate", n, 2)
+	// the mint clock has two writers only: MintAndAllocate (block time) and EndBlocker (zero while disabled).
+	// Anything else — in particular restoring it from a genesis file — makes the first block after the
+	// restart mint for the whole gap (or never advance), against 'elapsed between consecutive block timestamps'.
+	nTS := 0
+	tsWriters := map[string]bool{"(" + ck + ".Keeper).MintAndAllocate": true, "(" + ck + ".Keeper).EndBlocker": true}
+	for _, fn := range P.Funcs {
+		if isTestSupport(P, fn) || fn.Synthetic != "" {
+			continue
+		}
+		owner := fnID(outermost(fn))
+		eachCall(fn, func(ci CallInfo) {
+			if ci.Name != "SetPrevBlockTS" || ci.Static == nil || !pathHasSuffix(ci.PkgPath, ck) {
+				return
+			}
+			nTS++
+			r.Check(tsWriters[owner], "R1", owner+"#calls-SetPrevBlockTS", P.Pos(instrPos(ci.Instr)), "confirmed writer of the mint clock",
+				"the previous-block timestamp of coinomics is written from "+owner+": only MintAndAllocate (with the block time) and EndBlocker (reset while disabled) may — a timestamp carried over from elsewhere makes the next block mint for an interval that is not the gap between two consecutive blocks")
+		})
+	}
+	r.Floor("R1", "SetPrevBlockTS call sites", nTS, 3)
 
 	if eb, ok := P.FnOK("(" + ck + ".Keeper).EndBlocker"); ok {
 		isMA := isCallMatching(func(ci CallInfo) bool { return ci.Name == "MintAndAllocate" })
